@@ -81,5 +81,6 @@ package transport
 
 // ---- round 5 ----
 //@ func (*connHandshaker).Wait
-//@   before return#3 assert len(h.doneq) == len(at("if#3", h.doneq)) - 1 && forall(k, 0, len(h.doneq), h.doneq[k] == at("if#3", h.doneq)[k+1])
-//@   before return#3 assert item.c == at("if#3", h.doneq)[0].c && item.e == at("if#3", h.doneq)[0].e
+//@   ghost cl = h.closed at if#3
+//@   ensures !cl ==> len(h.doneq) == len(at("if#3", h.doneq)) - 1 && forall(k, 0, len(h.doneq), h.doneq[k] == at("if#3", h.doneq)[k+1])
+//@   ensures !cl ==> result0 == at("if#3", h.doneq)[0].c && result1 == at("if#3", h.doneq)[0].e
